@@ -24,11 +24,78 @@ type family struct {
 	Sugar bool  // emit one-sugar variants of each canonical member instead of the member itself
 	Limit int64 // stop after this many raw indices (0 = whole space); reported as a cap
 	Names int   // gen.Grammar.RenameRules scheme
+	// Wide: instead of Space, N grammars built from K components each (gen.Wide)
+	Wide *wideFam
+	// per-family bounds (0 = the check's)
+	L, Lpos, Npos int
+}
+
+// wideFam enumerates K-sequences of components from a pool: the accepted
+// members found by walking G(2,2,2,2) with a fixed stride. Sequence number i
+// is the base-len(pool) numeral of i*stride mod len(pool)^K (a fixed
+// permutation of the counter, so that early members already differ in every
+// position).
+type wideFam struct {
+	K    int
+	N    int64
+	pool []*gen.Grammar
+}
+
+const widePoolSize = 40
+
+func (w *wideFam) fill(ws *pipe.Workspace) {
+	if w.pool != nil {
+		return
+	}
+	sp := gen.NewSpace(2, 2, 2, 2, false)
+	for i := int64(0); i < sp.Size() && len(w.pool) < widePoolSize; i += 131 {
+		g := sp.Get(i)
+		if g == nil {
+			continue
+		}
+		if b := px.Build(ws, g, px.NB); b.Status == px.Accepted && cfgref.FromGrammar(g).Reduced() {
+			w.pool = append(w.pool, g)
+		}
+	}
+}
+
+func (w *wideFam) get(i int64) *gen.Grammar {
+	n := int64(len(w.pool))
+	total := int64(1)
+	for k := 0; k < w.K; k++ {
+		total *= n
+	}
+	x := (i * 2654435761) % total
+	var comps []*gen.Grammar
+	for k := 0; k < w.K; k++ {
+		comps = append(comps, w.pool[x%n])
+		x /= n
+	}
+	return gen.Wide(comps)
 }
 
 // each calls f(caseIndex, grammar) for every grammar of the family that falls
 // in the worker's shard. caseIndex is unique inside the family.
 func (fam *family) each(c *mc.Ctx, f func(idx int64, g *gen.Grammar)) {
+	if fam.Wide != nil {
+		ws := pipe.NewWorkspace("wide")
+		fam.Wide.fill(ws)
+		ws.Close()
+		if len(fam.Wide.pool) < 2 {
+			c.Stats.HarnessError("%s: component pool has %d members", fam.Name, len(fam.Wide.pool))
+			return
+		}
+		c.Stats.Cap(fmt.Sprintf("%s: %d of the %d^%d sequences of %d components (pool: accepted members of G(2,2,2,2) at stride 131), in a fixed permuted counter order", fam.Name, fam.Wide.N, len(fam.Wide.pool), fam.Wide.K, fam.Wide.K))
+		for i := int64(0); i < fam.Wide.N; i++ {
+			if !c.Mine(i) {
+				continue
+			}
+			g := fam.Wide.get(i)
+			g.RenameRules(fam.Names)
+			f(i, g)
+		}
+		return
+	}
 	n := fam.Space.Size()
 	if fam.Limit > 0 && fam.Limit < n {
 		n = fam.Limit
@@ -152,6 +219,8 @@ func c01Families(quick bool) c01Params {
 				{Name: "sugar", Space: gen.NewSpace(2, 2, 2, 2, false), Sugar: true, Limit: 6000},
 				{Name: "plain-names", Space: gen.NewSpace(2, 2, 2, 2, false), Names: 1},
 				{Name: "plain3-names", Space: gen.NewSpace(3, 2, 2, 2, false), Limit: 150000, Names: 1},
+				{Name: "wide", Wide: &wideFam{K: 5, N: 1200}, L: 3, Lpos: 8, Npos: 150},
+				{Name: "wide-names", Wide: &wideFam{K: 5, N: 400}, L: 3, Lpos: 8, Npos: 150, Names: 1},
 			},
 			L: 6, Lpos: 9, Npos: 200,
 		}
@@ -165,6 +234,9 @@ func c01Families(quick bool) c01Params {
 			{Name: "sugar", Space: gen.NewSpace(2, 2, 2, 2, false), Sugar: true},
 			{Name: "plain-names", Space: gen.NewSpace(2, 2, 2, 2, false), Names: 1},
 			{Name: "plain-t3-names", Space: gen.NewSpace(2, 3, 2, 2, false), Names: 1},
+			{Name: "wide", Wide: &wideFam{K: 5, N: 20000}, L: 4, Lpos: 9, Npos: 400},
+			{Name: "wide7", Wide: &wideFam{K: 7, N: 10000}, L: 3, Lpos: 9, Npos: 400},
+			{Name: "wide-names", Wide: &wideFam{K: 5, N: 10000}, L: 3, Lpos: 9, Npos: 400, Names: 1},
 		},
 		L: 8, Lpos: 12, Npos: 2000,
 	}
@@ -285,7 +357,11 @@ func c01Worker(c *mc.Ctx) {
 			if len(c.Stats.Samples) < 3 && len(g.Rules) > 1 {
 				c.Stats.Sample(map[string]any{"family": fam.Name, "grammar": g.String(), "strings_up_to": prm.L})
 			}
-			for _, v := range c01Explore(b, r, fam.Name, idx, prm.L, prm.Lpos, prm.Npos, &c.Stats) {
+			L, Lpos, Npos := prm.L, prm.Lpos, prm.Npos
+			if fam.L > 0 {
+				L, Lpos, Npos = fam.L, fam.Lpos, fam.Npos
+			}
+			for _, v := range c01Explore(b, r, fam.Name, idx, L, Lpos, Npos, &c.Stats) {
 				c.Stats.Violate(v)
 			}
 		})
@@ -316,7 +392,8 @@ func c01Replay(raw json.RawMessage) *mc.Violation {
 	}
 	r := px.NewRunner(px.NB)
 	var st mc.Stats
-	vs := c01Explore(b, r, gc.Family, gc.Index, gc.L, gc.L, 0, &st)
+	// gc.L is the exhaustive bound; a violation on a longer sentence is found on the positive side
+	vs := c01Explore(b, r, gc.Family, gc.Index, gc.L, maxInt(gc.L, len(gc.Input)), 1<<30, &st)
 	if len(vs) == 0 {
 		return nil
 	}
